@@ -110,7 +110,9 @@ func checkC24(c *Ctx) (string, []string) {
 	ok := flag != nil && app != nil
 	if ok {
 		// skip path: from loop body to next iteration without the append, must be behind !flag ∧ equal
-		eq := condEdges(rem, func(v ssa.Value) (bool, bool) { return abbr(exprStr(v, shapeOpts)) == "bytes.Equal(*p0[*][:], p1[:])", true })
+		eq := condEdges(rem, func(v ssa.Value) (bool, bool) {
+			return abbr(exprStr(v, shapeOpts)) == "bytes.Equal(*p0[*][:], p1[:])", true
+		})
 		notRemoved := condEdges(rem, func(v ssa.Value) (bool, bool) { return v == ssa.Value(flag), false })
 		// the block that sets removed=true: the phi edge carrying const true
 		var skipBlock *ssa.BasicBlock
